@@ -41,6 +41,12 @@ func (p *svcProvider) GetServiceInfo() map[string]grpc.ServiceInfo {
 	return out
 }
 
+func (p *svcProvider) get() []string {
+	p.mu.Lock()
+	defer p.mu.Unlock()
+	return append([]string(nil), p.advertised...)
+}
+
 func (p *svcProvider) set(svcs []string) {
 	p.mu.Lock()
 	p.advertised = append([]string(nil), svcs...)
@@ -106,7 +112,11 @@ func newBackend(sim *core.Sim, spec *BackendSpec, reqs map[int]*reqState) (*back
 		b.srv.RegisterService(b.world.serviceDesc(svc), b.world)
 	}
 	b.provider = &svcProvider{}
-	b.provider.set(spec.Services)
+	if adv, ok := defaultAdv[spec.Tag]; ok && len(spec.Services) == len(allProbeServices) {
+		b.provider.set(adv) // registrysim backends implement everything and advertise a subset
+	} else {
+		b.provider.set(spec.Services)
+	}
 	b.refl = &faultyReflection{ServerReflectionServer: reflection.NewServer(reflection.ServerOptions{Services: b.provider}), failAfter: -1}
 	rpb.RegisterServerReflectionServer(b.srv, b.refl)
 	go b.srv.Serve(b.lis)
